@@ -143,6 +143,16 @@ def store_replay(prop, spec, testname, testcode, what):
 
 
 def do_replay_file(prop, path):
+    if path.endswith(".json"):
+        import replay_e2
+        scratch = kanirun.Scratch()
+        try:
+            rc = replay_e2.replay_file(prop, path, scratch)
+        finally:
+            scratch.cleanup()
+        if rc == 1:
+            print("VIOLATION property=%s replay=%s" % (prop, path))
+        return rc
     hdr = {}
     code = []
     for ln in open(path):
